@@ -414,18 +414,17 @@ impl RawOpaquePool {
         // SAFETY: Caller guarantees the handle is valid for this pool.
         let slab = unsafe { self.slabs.get_unchecked_mut(handle.slab_index()) };
 
-        // SAFETY: Caller guarantees the handle is valid for this pool.
-        unsafe {
-            slab.remove(handle.slab_handle());
-        }
+        // We update the pool-level bookkeeping before removing the object from the slab because
+        // the removal runs the destructor of the object, which may panic. The slab itself remains
+        // consistent in that case (and the object counts as removed), so the pool must as well.
 
-        // Update our tracked length since we just removed an object.
-        // This cannot wrap around because we just removed an object,
+        // Update our tracked length since we are removing an object.
+        // This cannot wrap around because the caller guarantees the object is present,
         // so the value must be at least 1 before subtraction.
         self.length = self.length.wrapping_sub(1);
 
-        if slab.len() == self.slab_layout.capacity().get().wrapping_sub(1) {
-            // We removed from a full slab.
+        if slab.is_full() {
+            // We are removing from a full slab.
             // This means we have a vacant slot where there was not one before.
 
             // SAFETY: We are currently operating on the slab, so it must be an existing slab.
@@ -434,6 +433,11 @@ impl RawOpaquePool {
                 self.vacancy_tracker
                     .update_slab_status(handle.slab_index(), true);
             }
+        }
+
+        // SAFETY: Caller guarantees the handle is valid for this pool.
+        unsafe {
+            slab.remove(handle.slab_handle());
         }
     }
 
